@@ -181,6 +181,8 @@ def rand_qemu(rng):
     elif r < 0.5: mag = '%d.%d' % (rng.randint(0, 999), rng.randint(0, 99))
     elif r < 0.6: mag = '%d%s%s%d' % (rng.randint(0, 99), rng.choice('eE'), rng.choice('+-'), rng.randint(0, rng.choice([3, 25, 330])))
     elif r < 0.7: mag = '%d.%d%s%s%d' % (rng.randint(0, 99), rng.randint(0, 99), rng.choice('eE'), rng.choice('+-'), rng.randint(0, 12))
+    elif r < 0.76: mag = rng.choice(['.5', '.25', '.125', '.%d' % rng.randint(0, 999), '0.5', '0.%d' % rng.randint(0, 99), '5.', '%d.' % rng.randint(0, 99), '1..5', '1.5.2',
+                                     '-.5', '+.5', '-1', '+1', '-0.5', '+%d' % rng.randint(0, 99), '٠.٥', '.٥'])
     elif r < 0.8: mag = rng.choice(['.5', '1.', '', '١٢', '1e5', '1e', '0', '00', '9' * 330, '1e+400', '5e-1', '15e-1', '25e-1', '1e+22', '1e+23', '1.5.2', '-1', '+1'])
     else: mag = str(8 * rng.randint(0, 10 ** 6))
     unit = rng.choice(QUNITS)
@@ -231,6 +233,21 @@ def rand_qf(rng):
 
 _BREAKS = '\n\r\x0b\x0c\x1c\x1d\x1e\x85\u2028\u2029'
 
+QEMU_SHAPES = [(m, sep, u) for m in ['.5', '0.5', '5.', '1..5', '-.5', '+1', '1', '1.5', '.125', '-1', '+.5', '00.50', '.0']
+               for sep in ['', ' '] for u in ['G', 'GiB', 'K', 'B', 'MB', '']]
+def qemu_shape_cases():
+    """leading-dot, trailing-dot, multi-dot, signed and space-separated magnitudes, with and without the bytes figure,
+    directly and through a QemuImgInfo size field"""
+    for m, sep, u in QEMU_SHAPES:
+        for fig in (None, '7', '536870912'):
+            d = m + sep + u + ('' if fig is None else ' (%s bytes)' % fig)
+            c = {'op': 'xb', 'mag': m, 'unit': u, 'd': d}
+            if fig is not None: c['figure'] = fig
+            yield c
+            q = {'op': 'qf', 'line': 'virtual size: ' + d, 'field': 'virtual_size', 'd': d, 'mag': m, 'unit': u}
+            if fig is not None: q['figure'] = fig
+            yield q
+
 def gen_cases(rng, tier):
     quick = tier == 'quick'
     yield from s2b_boundary()
@@ -238,6 +255,7 @@ def gen_cases(rng, tier):
         yield rand_s2b(rng)
     for d in QEMU_BOUNDARY:
         yield {'op': 'xb', 'd': d}
+    yield from qemu_shape_cases()
     for _ in range(2500 if quick else 80000):
         yield rand_qemu(rng)
     # the regex engine on the generated patterns (intermediate values: match end and group spans)
@@ -393,7 +411,9 @@ def oracle(c, out):
         if out.startswith('EXN:') and out != 'EXN:ValueError': return '%s raises %s' % (what, out[4:])
         if 'mag' not in c: return None
         mag, unit = c['mag'], c['unit']
-        plain = re.fullmatch(r'[0-9]+(\.[0-9]+)?', mag) is not None
+        # the unsigned number grammar of string_to_bytes: digits, digits.digits or .digits (a leading dot is a number: '.5G' is
+        # half a GiB); trailing dot, several dots and signs are not what qemu-img prints: only the exception class is judged there
+        plain = re.fullmatch(r'[0-9]*\.?[0-9]+', mag) is not None
         if not plain or d != d.strip() or not d.startswith(mag): return None     # only qemu-img style fields are specified
         if 'figure' in c:
             n = c['figure']
@@ -457,6 +477,7 @@ def search(rng, budget):
     yield from s2b_boundary()
     for d in QEMU_BOUNDARY:
         yield {'op': 'xb', 'd': d}
+    yield from qemu_shape_cases()
     for name in SIZE_ATTR:
         for d in MALFORMED_SIZES:
             yield {'op': 'qf', 'line': name + ': ' + d, 'field': SIZE_ATTR[name], 'd': d}
